@@ -911,6 +911,10 @@ func main() {
 			return effectOrder(repo, "pubsub/oneonone/channel.go", "Connect", "connectOrder", [][2]string{
 				{"lock", "c.muSubs.Lock()"}, {"subscribe", "PubSub().Subscribe("}, {"unlock", "c.muSubs.Unlock()"}})
 		}},
+		{"GenMonitor", func() string {
+			return effectOrder(repo, "pubsub/oneonone/channel.go", "monitorTopic", "monitorTopicOrder", [][2]string{
+				{"next", "sub.Next("}, {"fromtarget", "msg.From() != p"}, {"emit", "c.emitter.Emit("}})
+		}},
 		{"GenTopic", func() string {
 			return callArgIs(repo, bs, "replicate", "TopicSubscribe", 1, "b.id", "storeTopicIsAddress",
 				"the pubsub topic a store subscribes to is named by its address (b.id), not by anything databases may share")
